@@ -1,6 +1,6 @@
 (* C16 property theorems: statements only, each closed by [exact]. *)
-From Boltons Require Import Lib.Prelude Lib.C16_Text Spec.C16_Spec Model.C16_Model Gen.C16_Gen
-  Check.C16_Check Proofs.C16_Format Proofs.C16_Main Proofs.C16_Sound.
+From Boltons Require Import Lib.Prelude Lib.C16_Text Spec.C16_Spec Spec.C16_Re Model.C16_Model Gen.C16_Gen
+  Check.C16_Check Proofs.C16_ReEquiv Proofs.C16_Format Proofs.C16_Main Proofs.C16_Sound.
 Open Scope N_scope.
 
 (* CPython's character classes, regenerated from the interpreter on every run, satisfy
@@ -8,6 +8,23 @@ Open Scope N_scope.
 Theorem C16_python_classes_lawful : cc_ok py_cc.
 Proof. exact py_cc_ok. Qed.
 Print Assumptions C16_python_classes_lawful.
+
+(* ---- the three regexes: the matchers inside the model are the reference semantics of re
+   (Spec/C16_Re.v) on the patterns parsed from boltons/tbutils.py on this very run ------------------------- *)
+Theorem C16_frame_re_is_source_pattern : forall C, cc_ok C -> forall s,
+  rmatch C gen_frame_items true s [] = option_map enc (frame_re C s).
+Proof. exact frame_re_python. Qed.
+Print Assumptions C16_frame_re_is_source_pattern.
+
+Theorem C16_se_frame_re_is_source_pattern : forall C, cc_ok C -> forall s,
+  rmatch C gen_se_items true s [] = option_map enc (se_frame_re C s).
+Proof. exact se_frame_re_python. Qed.
+Print Assumptions C16_se_frame_re_is_source_pattern.
+
+Theorem C16_underline_re_is_source_pattern : forall C s,
+  (if rmatch C gen_underline_items true s [] then true else false) = underline_re s.
+Proof. exact underline_re_python. Qed.
+Print Assumptions C16_underline_re_is_source_pattern.
 
 (* ---- first half: text <-> ParsedException --------------------------------------------------------- *)
 (* from_string recovers every field of every well-formed structured traceback from its
